@@ -8,6 +8,7 @@ mod gen;
 mod guard;
 mod judges;
 mod kernels;
+mod lean;
 mod known;
 mod model;
 mod ops;
